@@ -251,7 +251,9 @@ def run(ctx):
                         'report-related builds are taken from the component report itself); parent histories with merges and up to 2 (quick) / 3 branches whose heads '
                         'do not lie inside a lower-sorted branch (known finding F-C06 of C06 lives there); pins never decrease '
                         'along a path (the new pin contains the old one; in the sideways family of the diamond component only the build NUMBER does not decrease) and name existing component builds; all commit times within a few hours (inside the '
-                        'cut-off windows)',
+                        'cut-off windows), except in the `days` variant: the component has a second, older branch whose head master contains, '
+                        'component commits are two days apart and every parent commit follows the component commit it pins by minutes '
+                        '(builds of the older branch are judged only while no parent commit pins a build of the component master)',
                         'component versions: 1.0.<build> from tags build_<n>_release_1_0_success (or 0.9.<build> from build_<n>_release_0_9_success), or 1.<commit>.<build> from tags build_<n>_master_success plus a VERSION file that changes with every commit']
     ctx.tlc('ghist/GHistComp.tla', _cfg(2, 2, 2, 2, False) if ctx.quick else _cfg(2, 3, 2, 2, False), workers=16, timeout=3000)
     r = ctx.tlc('ghist/GHistComp.tla', _cfg(2, 2, 2, 2, True, invs=False) if ctx.quick else _cfg(2, 3, 2, 2, True, invs=False),
